@@ -1,4 +1,4 @@
-// C10, one base class (thorough tier):  class B { <special members>; int m; };  class A : public B { [void f();] int m; };
+// C10, one base class:  class B { <special members>; [pure virtual f;] int m; };  class A : public B { [f();] int m; };
 // A declares no special member, so its traits are decided by the recursion of CPPStructType::is_* over the base class
 // (is_default_constructible(V_protected) etc.) and by get_virtual_funcs matching A::f against B's pure virtual f.
 // Same construction and conventions as c10_traits.cxx (which see); oracle c10d_* of c10_oracle.h, validated against
@@ -14,6 +14,7 @@
 #include "cppSimpleType.h"
 #include "cppConstType.h"
 #include "cppReferenceType.h"
+#include "cppPointerType.h"
 #include "c10_oracle.h"
 #include <stdio.h>
 
@@ -21,8 +22,8 @@
 #define PRESENCE 0xffff  // bit set over the 16 presence patterns of B (bit p: dc = p&1, cc = p&2, dt = p&4, pv = p&8)
 #endif
 #ifndef OVERRIDES
-#define OVERRIDES 3      // bit 0: A without f, bit 1: A with `void f();`
-#endif
+#define OVERRIDES 15     // bit 0: A without f; bit 1: A::f `void f()` / B::f `virtual void f() = 0`; bit 2: `B *f()` in both
+#endif                   // (identical return type); bit 3: `A *f()` against `virtual B *f() = 0` (covariant return type)
 #ifndef CHECKS
 #define CHECKS 0x1f      // 1 default-constructible, 2 copy-constructible, 4 destructible, 8 abstract, 16 polymorphic
 #endif
@@ -33,8 +34,8 @@ CPPType *CPPType::new_type(CPPType *type) { return type; }
 static CPPType *t_void, *t_int;
 
 NOINL static CPPInstance *add_function(CPPScope *scope, const char *name, CPPParameterList *params, int flags,
-                                       int storage_class, int vis) {
-  CPPFunctionType *ftype = new CPPFunctionType(t_void, params, flags);
+                                       int storage_class, int vis, CPPType *ret = nullptr) {
+  CPPFunctionType *ftype = new CPPFunctionType(ret ? ret : t_void, params, flags);
   CPPInstance *inst = new CPPInstance(ftype, std::string(name), storage_class);
   inst->_vis = (CPPVisibility)vis;
   inst->_ident->_native_scope = scope;
@@ -67,6 +68,7 @@ static int storage_of(int kind) {
   case K_DEFAULT: return CPPInstance::SC_defaulted;
   case K_DELETE: return CPPInstance::SC_deleted;
   case K_VIRTUAL: return CPPInstance::SC_virtual;
+  case K_PURE: return CPPInstance::SC_virtual | CPPInstance::SC_pure_virtual;
   default: return 0;
   }
 }
@@ -79,8 +81,9 @@ static int pick_vis() {
 NOINL static void check_traits(CPPStructType *A, C10Bits b, int ov) {
 #ifdef VERIF_NATIVE
   printf("class B: default ctor kind=%d access=%d, copy ctor kind=%d access=%d, destructor kind=%d access=%d, pure virtual f=%d; "
-         "class A : public B {%s int m; }\n", b.dc, b.dc_vis, b.cc, b.cc_vis, b.dt, b.dt_vis, b.pv, ov ? " void f();" : "");
-  printf("  (kind: 0 none 1 user 2 =default 3 =delete 4 virtual; access: 1 public 2 protected 3 private)\n");
+         "class A : public B {%s int m; }\n", b.dc, b.dc_vis, b.cc, b.cc_vis, b.dt, b.dt_vis, b.pv,
+         ov == 0 ? "" : ov == 1 ? " void f(); /* B: virtual void f() = 0 */" : ov == 2 ? " B *f(); /* B: virtual B *f() = 0 */" : " A *f(); /* B: virtual B *f() = 0 */");
+  printf("  (kind: 0 none 1 user 2 =default 3 =delete 4 virtual 5 pure virtual; access: 1 public 2 protected 3 private)\n");
   printf("  interrogate on A: abstract=%d polymorphic=%d destructible=%d default_constructible=%d copy_constructible=%d\n",
          (int)A->is_abstract(), (int)A->is_polymorphic(), (int)A->is_destructible(), (int)A->is_default_constructible(), (int)A->is_copy_constructible());
   printf("  C++ (g++) on A:   abstract=%d polymorphic=%d destructible=%d default_constructible=%d copy_constructible=%d\n",
@@ -123,17 +126,20 @@ NOINL static void check_pair(int presence, int ov) {
     cc = add_function(bs, "B", params, CPPFunctionType::F_constructor | CPPFunctionType::F_copy_constructor, 0, A_PUBLIC);
   }
   if (presence & 4) dt = add_function(bs, "~B", new CPPParameterList, CPPFunctionType::F_destructor, 0, A_PUBLIC);
-  if (presence & 8) add_function(bs, "f", new CPPParameterList, 0, CPPInstance::SC_virtual | CPPInstance::SC_pure_virtual, A_PUBLIC);
+  CPPType *b_ptr = new CPPPointerType(B);
+  if (presence & 8) add_function(bs, "f", new CPPParameterList, 0, CPPInstance::SC_virtual | CPPInstance::SC_pure_virtual, A_PUBLIC,
+                                 ov >= 2 ? b_ptr : t_void);
 
   CPPStructType *A = make_class("A", as);
   A->append_derivation(B, V_public, false);              // class A : public B
-  if (ov) add_function(as, "f", new CPPParameterList, 0, 0, A_PUBLIC);      // void f();
+  if (ov) add_function(as, "f", new CPPParameterList, 0, 0, A_PUBLIC,       // void f();  /  B *f();  /  A *f();
+                       ov == 1 ? t_void : ov == 2 ? b_ptr : (CPPType *)new CPPPointerType(A));
 
   for (int dck = K_USER; dck <= K_DELETE; dck++) {
     if (!dc && dck != K_USER) continue;
     for (int cck = K_USER; cck <= K_DELETE; cck++) {
       if (!cc && cck != K_USER) continue;
-      for (int dtk = K_USER; dtk <= K_VIRTUAL; dtk++) {
+      for (int dtk = K_USER; dtk <= K_PURE; dtk++) {
         if (!dt && dtk != K_USER) continue;
         if (dc) { b.dc = dck; b.dc_vis = pick_vis(); dc->_storage_class = storage_of(dck); dc->_vis = (CPPVisibility)b.dc_vis; }
         if (cc) { b.cc = cck; b.cc_vis = pick_vis(); cc->_storage_class = storage_of(cck); cc->_vis = (CPPVisibility)b.cc_vis; }
@@ -148,7 +154,7 @@ NOINL static void check_pair(int presence, int ov) {
 extern "C" void harness_c10_base() {
   t_void = new CPPSimpleType(CPPSimpleType::T_void);
   t_int = new CPPSimpleType(CPPSimpleType::T_int);
-  for (int ov = 0; ov < 2; ov++) {
+  for (int ov = 0; ov < 4; ov++) {
     if (!((OVERRIDES >> ov) & 1)) continue;
     for (int presence = 0; presence < 16; presence++) {
       if (!((PRESENCE >> presence) & 1)) continue;
